@@ -95,7 +95,7 @@ Theorem C06_expression_resolution_order : forall us us', Permutation us us' ->
   (ExprKind.resolve_expr_kinds (flat_map ExprKind.flat_unit us) = None <-> ExprKind.resolve_expr_kinds (flat_map ExprKind.flat_unit us') = None).
 Proof. exact ExprKindProofs.verdict_perm. Qed.
 
-(* aliases of data types: two well-formed orders (unique names, bases first) of the same declarations give every alias the
+(* aliases of data types: two well-formed orders (unique names, declared kinds before their uses as a base) of the same declarations give every alias the
    same kind -- whichever of them the declaration sort produces *)
 Theorem C06_alias_resolution_order : forall fs fs' s s' n, DataDeclComplete.wf fs -> DataDeclComplete.wf fs' ->
   (forall f, In f fs <-> In f fs') -> DataDecl.dwalk DataDecl.dinit0 fs = inl s -> DataDecl.dwalk DataDecl.dinit0 fs' = inl s' ->
